@@ -5,6 +5,7 @@
 package p04
 
 import (
+	"sync"
 	"bufio"
 	"bytes"
 	"os/exec"
@@ -384,7 +385,108 @@ func parseCfg(c, p string) (cfg, bool) {
 	return r, true
 }
 
+// syncTracker follows every block file the store writes through: how long it is
+// and how much of it has been fsynced.  After a crash everything that was not
+// fsynced may be gone; the `sync` crash images cut the block files back to
+// their last-synced length.
+type syncTracker struct {
+	mu     sync.Mutex
+	dir    string
+	size   map[uint32]int64
+	synced map[uint32]int64
+}
+
+var (
+	trackMu  sync.Mutex
+	trackers = map[database.DB]*syncTracker{}
+)
+
+type trackedFile struct {
+	ffldb.VerifC04File
+	n uint32
+	t *syncTracker
+}
+
+func (f *trackedFile) WriteAt(p []byte, off int64) (int, error) {
+	n, err := f.VerifC04File.WriteAt(p, off)
+	f.t.mu.Lock()
+	if end := off + int64(n); end > f.t.size[f.n] {
+		f.t.size[f.n] = end
+	}
+	f.t.mu.Unlock()
+	return n, err
+}
+
+func (f *trackedFile) Truncate(size int64) error {
+	err := f.VerifC04File.Truncate(size)
+	f.t.mu.Lock()
+	f.t.size[f.n] = size
+	if f.t.synced[f.n] > size {
+		f.t.synced[f.n] = size
+	}
+	f.t.mu.Unlock()
+	return err
+}
+
+func (f *trackedFile) Sync() error {
+	err := f.VerifC04File.Sync()
+	f.t.mu.Lock()
+	f.t.synced[f.n] = f.t.size[f.n]
+	f.t.mu.Unlock()
+	return err
+}
+
+func (t *syncTracker) snapshot() map[uint32]int64 {
+	t.mu.Lock()
+	defer t.mu.Unlock()
+	m := map[uint32]int64{}
+	for k, v := range t.synced {
+		m[k] = v
+	}
+	return m
+}
+
+func blockFileName(n uint32) string { return fmt.Sprintf("%09d.fdb", n) }
+
+func trackerOf(db database.DB) *syncTracker {
+	trackMu.Lock()
+	defer trackMu.Unlock()
+	return trackers[db]
+}
+
 func openDB(dir string, c cfg, create bool) (database.DB, error) {
+	db, err := openDBRaw(dir, c, create)
+	if err != nil {
+		return nil, err
+	}
+	t := &syncTracker{dir: dir, size: map[uint32]int64{}, synced: map[uint32]int64{}}
+	ffldb.VerifC04WrapWriteFiles(db, func(n uint32, f ffldb.VerifC04File) ffldb.VerifC04File {
+		t.mu.Lock()
+		if _, ok := t.size[n]; !ok {
+			// what is in the file when it is first opened was there before this life
+			var sz int64
+			if fi, err := os.Stat(filepath.Join(dir, blockFileName(n))); err == nil {
+				sz = fi.Size()
+			}
+			t.size[n], t.synced[n] = sz, sz
+		}
+		t.mu.Unlock()
+		return &trackedFile{f, n, t}
+	})
+	trackMu.Lock()
+	trackers[db] = t
+	trackMu.Unlock()
+	return db, nil
+}
+
+func closeDB(db database.DB) {
+	trackMu.Lock()
+	delete(trackers, db)
+	trackMu.Unlock()
+	db.Close()
+}
+
+func openDBRaw(dir string, c cfg, create bool) (database.DB, error) {
 	var db database.DB
 	var err error
 	if create {
@@ -555,6 +657,7 @@ type life struct {
 	bad    string
 	// snapshots handed out earlier whose contents changed afterwards (results are values)
 	snapChanged int
+	synced      []map[uint32]int64 // synced[k]: fsynced length of every block file written in this life, after commit k
 	bestAt      []int        // bestAt[k]: persisted best block after commit k (property level: "made active")
 	connected   map[int]bool // blocks this life connected at some point
 }
@@ -638,14 +741,17 @@ func runLife(root string, startDir string, w *world, c cfg, ops []string) *life 
 		l.bad = "dberr"
 		return l
 	}
-	defer raw.Close()
+	defer closeDB(raw)
 	l.pers = []string{""}
 	l.window = []string{"-"}
 	cdb := &countDB{DB: raw}
 	l.bestAt = []int{0}
+	l.synced = []map[uint32]int64{nil}
 	l.connected = map[int]bool{}
+	tr := trackerOf(raw)
 	cdb.after = func(k int) {
 		copyTree(live, l.img(k))
+		l.synced = append(l.synced, tr.snapshot())
 		ps := w.persisted(raw)
 		l.pers = append(l.pers, ps)
 		l.window = append(l.window, "-")
@@ -839,7 +945,7 @@ func reopenV(root, imgDir string, w *world, c cfg, acked []int, ops []string, px
 	if err != nil {
 		return "r=dberr", v
 	}
-	defer raw.Close()
+	defer closeDB(raw)
 	ch, err := w.newChain(raw, c)
 	if err != nil {
 		return "r=err:" + errClass(err), v
@@ -1084,7 +1190,7 @@ func (P) exec(line string) string {
 		return "bad-op"
 	}
 	switch t[1] {
-	case "img", "torn":
+	case "img", "torn", "sync":
 		if len(t) != 7 {
 			return "malformed"
 		}
@@ -1107,6 +1213,19 @@ func (P) exec(line string) string {
 			k = l.n
 		}
 		img := l.img(k)
+		if t[1] == "sync" {
+			// everything that was not fsynced is lost: the block files are cut back to
+			// their last-synced length
+			img = filepath.Join(r.root, "sync")
+			os.RemoveAll(img)
+			copyTree(l.img(k), img)
+			for n, sz := range l.synced[k] {
+				p := filepath.Join(img, blockFileName(n))
+				if fi, err := os.Stat(p); err == nil && fi.Size() > sz {
+					os.Truncate(p, sz)
+				}
+			}
+		}
 		if t[1] == "torn" {
 			// a partially written next block after the write cursor, no metadata
 			img = filepath.Join(r.root, "torn")
@@ -1664,6 +1783,10 @@ func (P) Generate(g *core.Gen) {
 		for i := 0; i < 2 && n > 3; i++ {
 			g.Case(class+"-torn", true, fmt.Sprintf("C04 torn %s %d", key, 4+g.R.Intn(n-3)))
 		}
+		// power-loss images: block files cut back to what had been fsynced at commit k
+		for i := 0; i < 3 && n > 3; i++ {
+			g.Case(class+"-sync", true, fmt.Sprintf("C04 sync %s %d", key, 4+g.R.Intn(n-3)))
+		}
 		for i := 0; i < nk && n > 3; i++ {
 			k := 4 + g.R.Intn(n-3)
 			// prefer crash points inside an activation window or with a lagging marker
@@ -1807,7 +1930,7 @@ func (P) Generate(g *core.Gen) {
 		"C04 img 2 0 1:0:- d1 1", "C04 img 0 0 1:1:- d1 1", "C04 img 0 0 1:0:- d2 1", "C04 img 0 0 1:0:- d1 0",
 		"C04 img 0 0 1:0:-:y d1 1", "C04 img 0 0 1:0:-,1:0:- d1 1", "C04 img 0 0 - - 1", "C04 img 0 0 - - 3", "C04 img 0 0 - - 4",
 		"C04 img 0 0 1:0:- d1", "C04 nop", "C04 img 0 500:1000 1:0:- d1 1", "C04 img 0 1000:0 1:0:- d1 1",
-		"C04 img2 0 0 1:0:- d1 4 0", "C04 par 0 0 1:0:- d1 4", "C04 par 0 0 1:0:- d1 4.0", "C04 par 0 0 1:0:- d1 4.x", "C04 img 1>2 0 1:0:- d1 4", "C04 img 1>0>1>0 0 1:0:- d1 4", "C04 img > 0 1:0:- d1 4", "C04 img 1>0 0 1:0:- d1 4", "C04 img2 0 0 1:0:- d1 4 1", "C04 img2 0 0 1:0:- d1 4 99", "C04 torn 0 0 1:0:- d1 5",
+		"C04 img2 0 0 1:0:- d1 4 0", "C04 sync 0 0 1:0:- d1", "C04 sync 0 0 1:0:- d1 0", "C04 par 0 0 1:0:- d1 4", "C04 par 0 0 1:0:- d1 4.0", "C04 par 0 0 1:0:- d1 4.x", "C04 img 1>2 0 1:0:- d1 4", "C04 img 1>0>1>0 0 1:0:- d1 4", "C04 img > 0 1:0:- d1 4", "C04 img 1>0 0 1:0:- d1 4", "C04 img2 0 0 1:0:- d1 4 1", "C04 img2 0 0 1:0:- d1 4 99", "C04 torn 0 0 1:0:- d1 5",
 	} {
 		g.Case("malformed", false, l)
 	}
